@@ -28,6 +28,14 @@ func c20Pool() []replLine {
 		{"", true, "empty"}, {"   ", true, "empty"}, {"// comment only", true, "empty"},
 		{Print("1") + " " + Print("2"), true, "print"}, {Var("y", "2") + " " + Print("y * 2"), true, "print"}, {"1; 2;", true, "echo"},
 		{Fun("f", "a", " "+Ret("a + 1")+" ") + " f(1);", true, "echo"}, {If(True(), Print(`"t"`)), true, "print"},
+		// long lines (beyond a 4096-byte buffer, below bufio.Scanner's 64 KiB limit)
+		{Print(`"` + strings.Repeat("লম্বা ", 900) + `"`), true, "long"},
+		{"1" + strings.Repeat(" + 1", 1999) + ";", true, "long"},
+		{`"` + strings.Repeat("x", 5000) + `" + 1;`, true, "long"},
+		{Print("1") + " // " + strings.Repeat("comment ", 700), true, "long"},
+		{strings.Repeat("@", 150), true, "long"},
+		{Print("1 +" + strings.Repeat(" 1 +", 1500)), true, "long"},
+		{"নেই" + strings.Repeat("_x", 2500) + ";", true, "long"},
 	}
 }
 
@@ -197,12 +205,65 @@ func c20Run(c *Ctx) {
 			return
 		}
 		for i := range pool {
+			if pool[i].kind == "long" && len(seq) > 0 {
+				continue // long lines: first position only in the exhaustive part
+			}
 			seq = append(seq, i)
 			rec()
 			seq = seq[:len(seq)-1]
 		}
 	}
 	rec()
+	// long sessions: hundreds of lines, dominated by failing lines (state that accumulates
+	// over a session shows only here)
+	rl := c.Rand("long-sessions")
+	nlong := c.N(24, 300)
+	var failing, other []int
+	for i, p := range pool {
+		switch p.kind {
+		case "lexical", "syntax", "runtime":
+			failing = append(failing, i)
+		case "long":
+		default:
+			other = append(other, i)
+		}
+	}
+	for k := 0; k < nlong; k++ {
+		l := 120 + rl.Intn(260)
+		ls := make([]string, l)
+		bias := k % 3 // 0: mostly lexical/syntax, 1: mostly runtime, 2: mixed
+		for i := range ls {
+			switch {
+			case rl.Intn(5) == 0:
+				ls[i] = pool[other[rl.Intn(len(other))]].text
+			case bias == 0:
+				for {
+					p := pool[failing[rl.Intn(len(failing))]]
+					if p.kind != "runtime" {
+						ls[i] = p.text
+						break
+					}
+				}
+			case bias == 1:
+				for {
+					p := pool[failing[rl.Intn(len(failing))]]
+					if p.kind == "runtime" {
+						ls[i] = p.text
+						break
+					}
+				}
+			default:
+				ls[i] = pool[failing[rl.Intn(len(failing))]].text
+			}
+		}
+		if rl.Intn(3) == 0 {
+			ls[rl.Intn(l/2)] = strings.Repeat("@", 150)
+		}
+		if !c.Mine() {
+			continue
+		}
+		c20Judge(c, &Case{Gen: "long-sessions", Src: strings.Join(ls, "\n"), X: map[string]string{"final_newline": "1"}})
+	}
 	// random longer sessions
 	r := c.Rand("sessions")
 	n := c.N(1500, 30000)
@@ -226,10 +287,10 @@ func c20Run(c *Ctx) {
 func init() {
 	register(&CheckDef{
 		ID:   "C20",
-		Rule: "interactive sessions of the plain binary (stdout and stderr on one pipe, split at the `>> ` prompts): every sequence of <=2 (quick) / <=3 (thorough) lines over a 42-line pool (prints, bare expressions of every value kind, built-in calls, lexical errors, syntax errors, runtime errors incl. a failing multi-statement line and a line that overwrites a built-in name and then fails, a declaration and dependent lines, empty / blank / comment-only lines, multi-statement lines), with and without a final newline; seeded random sessions of 3-40 lines. Checks: exit status 0; exactly one response per line plus the final prompt; every self-contained line's response equals refborno's REPL-mode expectation (echo of bare expression values included) and is byte-identical to the response the same binary gives to that line alone in a fresh session. Non-trivial = distinct session whose responses were all checked.",
+		Rule: "interactive sessions of the plain binary (stdout and stderr on one pipe, split at the `>> ` prompts): every sequence of <=2 (quick) / <=3 (thorough) lines over a 49-line pool (prints, bare expressions of every value kind, built-in calls, lexical errors, syntax errors, runtime errors incl. a failing multi-statement line and a line that overwrites a built-in name and then fails, a declaration and dependent lines, empty / blank / comment-only lines, multi-statement lines), with and without a final newline; seeded random sessions of 3-40 lines; long lines (4-12 kB: a long string, a 2000-term sum, a long comment, 150 stray characters, long failing lines); long sessions of 120-380 lines dominated by failing lines. Checks: exit status 0; exactly one response per line plus the final prompt; every self-contained line's response equals refborno's REPL-mode expectation (echo of bare expression values included) and is byte-identical to the response the same binary gives to that line alone in a fresh session. Non-trivial = distinct session whose responses were all checked.",
 		Assumptions: []string{"the property promises no state carried between lines: lines that depend on earlier lines are only counted", "lines containing the prompt text, ইনপুট/ক্লক lines and lines beyond bufio.Scanner's 64 KiB limit are out of domain"},
 		Run:         c20Run,
 		Judge:       c20Judge,
-		MustCount:   func(c *Ctx) []string { return []string{"responses_checked", "line_kind:echo", "line_kind:lexical", "line_kind:syntax", "line_kind:runtime", "line_kind:empty", "gen:random-sessions", "cli_runs"} },
+		MustCount:   func(c *Ctx) []string { return []string{"responses_checked", "line_kind:echo", "line_kind:lexical", "line_kind:syntax", "line_kind:runtime", "line_kind:empty", "gen:random-sessions", "gen:long-sessions", "line_kind:long", "cli_runs"} },
 	})
 }
